@@ -336,7 +336,7 @@ LineCol(text, off) ==
     IN <<nls, off - last>>
 
 \* ---- data digits -------------------------------------------------------------
-BitAt(out, p) == IF p < Len(out) THEN out[p + 1] ELSE 0        \* p counted from 0
+BitAt(out, p) == IF p >= 0 /\ p < Len(out) THEN out[p + 1] ELSE 0        \* p counted from 0 (total: a row matched to the wrong item may ask anywhere)
 DigitAt(out, p, w) == FoldLeft(LAMBDA a, k : 2 * a + BitAt(out, p + k - 1), 0, [k \in 1..w |-> k])
 
 \* What a row of the annotated / tcgame listing promises for its item:
